@@ -176,8 +176,9 @@ class FakeResponse:
 class FakeSession:
     """requests.Session double serving byte ranges of an in-memory file"""
 
-    def __init__(self, data, fails=(), sched=None, delay=None, log=None):
+    def __init__(self, data, fails=(), sched=None, delay=None, log=None, fail_kind=None):
         self.data, self.fails, self.sched, self.delay, self.log = data, set(fails), sched, delay, log
+        self.fail_kind = fail_kind or (lambda offset: "http")
         self.closed = False
 
     def get(self, url, headers=None, **kw):
@@ -190,6 +191,10 @@ class FakeSession:
             self.delay(a)
         if self.log is not None:
             self.log.append((a, b - a + 1))
+        if a in self.fails and self.fail_kind(a) == "protocol":
+            # a failure that is not an OSError (requests' own exceptions are): the connection broke mid-body
+            import http.client
+            raise http.client.IncompleteRead(b"", b - a + 1)
         return FakeResponse(self.data[a:b + 1], a in self.fails)
 
     def close(self):
